@@ -139,6 +139,22 @@ where
     F: Hashable<H> + Sampleable<H>,
     G1Projective: Hashable<H>,
 {
+    prove_any::<H, ShapeCircuit>(params, pk, circuits, committed, instances, seed)
+}
+
+pub fn prove_any<H, C: midnight_proofs::plonk::Circuit<F>>(
+    params: &ParamsKZG<Bls12>,
+    pk: &PK,
+    circuits: &[C],
+    committed: usize,
+    instances: &[Vec<Vec<F>>],
+    seed: u64,
+) -> Result<ProveOut, String>
+where
+    H: TranscriptHash,
+    F: Hashable<H> + Sampleable<H>,
+    G1Projective: Hashable<H>,
+{
     let inst_refs: Vec<Vec<&[F]>> =
         instances.iter().map(|p| p.iter().map(|c| &c[..]).collect()).collect();
     let inst_refs2: Vec<&[&[F]]> = inst_refs.iter().map(|p| &p[..]).collect();
